@@ -109,6 +109,10 @@ def simplifyPath (dist : Point64 → Point64 → Point64 → D) (maxD : D) (path
 
 /-- the executable instance: `float64` distances as computed by the generated code -/
 def simplifyPath64 (path : Array Point64) (epsilon : Float) (isClosed : Bool) : Array Point64 :=
-  simplifyPath (D := Float) PerpendicDistFromLineSqr64 1.7976931348623157e308 path (epsilon * epsilon) isClosed
+  -- `epsSq := math.Min(sqr(epsilon), math.Nextafter(math.MaxFloat64, 0))`
+  let e2 := epsilon * epsilon
+  let cap : Float := 1.7976931348623155e308
+  let epsSq := if e2.isNaN then e2 else if e2 < cap then e2 else cap
+  simplifyPath (D := Float) PerpendicDistFromLineSqr64 1.7976931348623157e308 path epsSq isClosed
 
 end Model
